@@ -386,8 +386,11 @@ Path_dc = path_type("dc", docstring="path to a directory that can be created if 
 Path_drw = path_type("drw", docstring="path to a directory that exists and is readable and writeable")
 
 register_type(os.PathLike, str, str)
-register_type(complex)
-register_type_on_first_use("decimal.Decimal", float)
+# conversions that fail with an ArithmeticError: OverflowError, decimal.InvalidOperation
+arithmetic_deserializer_exceptions = (ValueError, TypeError, AttributeError, ArithmeticError)
+
+register_type(complex, deserializer_exceptions=arithmetic_deserializer_exceptions)
+register_type_on_first_use("decimal.Decimal", float, deserializer_exceptions=arithmetic_deserializer_exceptions)
 register_type_on_first_use("uuid.UUID")
 
 for _path in [pathlib.Path, pathlib.PosixPath, pathlib.WindowsPath]:
@@ -412,7 +415,11 @@ def timedelta_deserializer(value):
     return timedelta(**kwargs)
 
 
-register_type_on_first_use("datetime.timedelta", deserializer=timedelta_deserializer)
+register_type_on_first_use(
+    "datetime.timedelta",
+    deserializer=timedelta_deserializer,
+    deserializer_exceptions=arithmetic_deserializer_exceptions,
+)
 
 
 def bytes_serializer(value: Union[bytes, bytearray]) -> str:
